@@ -164,7 +164,9 @@ def sort_of(ty: Ty):
         s = _mk_dt(nm, [("len_" + nm, z3.IntSort()), ("arr_" + nm, z3.ArraySort(z3.IntSort(), sort_of(ty.elem)))])
     elif isinstance(ty, TDict):
         nm = "Dict_" + _san(ty.k.name) + "_" + _san(ty.v.name)
-        ks = sort_of(ty.k)
+        # (C19) dict[bytes, V] is keyed by bkey(b), the integer id of the byte STRING (Python compares dict keys by value;
+        # two z3 Bytes terms may denote the same string and still differ outside [0, len)) - same device as set[bytes]
+        ks = dict_ksort(ty)
         s = _mk_dt(
             nm,
             [
@@ -351,6 +353,11 @@ def _default_cache(ty, s):
 
 
 # dict
+def dict_ksort(ty):
+    """sort of the key index of a dict's dom/val arrays: bkey ids (Int) for bytes keys, the key sort otherwise"""
+    return z3.IntSort() if ty.k == TBytes else sort_of(ty.k)
+
+
 def dict_mk(ty: TDict, dom, val):
     return V(ty, sort_of(ty).constructor(0)(dom, val))
 
@@ -366,8 +373,8 @@ def dict_val(v):
 def dict_empty(ty: TDict):
     return dict_mk(
         ty,
-        z3.K(sort_of(ty.k), z3.BoolVal(False)),
-        z3.K(sort_of(ty.k), _default_cache(ty.v, sort_of(ty.v))),
+        z3.K(dict_ksort(ty), z3.BoolVal(False)),
+        z3.K(dict_ksort(ty), _default_cache(ty.v, sort_of(ty.v))),
     )
 
 
@@ -397,6 +404,14 @@ def wf(v: V, depth=0):
         # every member of a set[bytes] IS a byte string: its id is the id of some byte string
         c = z3.FreshConst(z3.IntSort(), "c")
         out.append(z3.ForAll([c], z3.Implies(z3.Select(v.t, c), bkey(unkey(c)) == c), patterns=[z3.Select(v.t, c)]))
+    elif isinstance(ty, TDict) and ty.k == TBytes and depth == 0:
+        # (C19) every key of a dict[bytes, V] IS a byte string: its id is the id of some byte string
+        c = z3.FreshConst(z3.IntSort(), "c")
+        body = z3.Implies(z3.Select(dict_dom(v), c), bkey(unkey(c)) == c)
+        try:
+            out.append(z3.ForAll([c], body, patterns=[z3.Select(dict_dom(v), c)]))
+        except z3.Z3Exception:  # the dict term is not a valid trigger (contains ite / a bound variable)
+            out.append(z3.ForAll([c], body))
     elif isinstance(ty, TOpt):
         inner = wf(opt_val(v), depth + 1)
         if inner:
